@@ -10,11 +10,16 @@ package main
 import (
 	"bytes"
 	"compress/gzip"
+	"encoding/base64"
 	"encoding/binary"
+	"encoding/json"
 	"fmt"
 	"io"
 	"net"
+	"os"
+	"path/filepath"
 	"reflect"
+	"runtime"
 	"sort"
 	"strconv"
 	"strings"
@@ -44,6 +49,7 @@ const (
 	rsCrcTrue      = 0x997275b5
 	rsCrcFalse     = 0xbc799737
 	rsCrcFutSalt   = 0x0949d9dc
+	rsCrcDHOk      = 0xd0e8075c // server_DH_params_ok nonce:int128 server_nonce:int128 encrypted_answer:bytes
 	rsTagBase      = 7000
 )
 
@@ -152,18 +158,29 @@ func (s *rsServer) readLoop(c net.Conn) {
 		if len(f.Body) >= 4 {
 			ctor = binary.LittleEndian.Uint32(f.Body)
 		}
+		// every message the client writes is checked byte for byte against what its sender meant: a request is
+		// exactly ping#7abe77ec ping_id:long, an acknowledgement exactly msgs_ack#62d6b459 msg_ids:Vector<long>
+		// with at least one id and nothing behind the last one. Anything else under those constructors is a
+		// message the client damaged between encoding and writing it (event X).
 		switch {
 		case ctor == rsCrcPing && len(f.Body) == 12:
 			tag := int64(binary.LittleEndian.Uint64(f.Body[4:]))
 			s.reqs = append(s.reqs, f)
 			s.log.add("S:%d:%d:%d:%d:q", tag-rsTagBase, f.Mid, f.Seq, int64(f.Salt))
+		case ctor == rsCrcPing:
+			s.log.add("X:malformed-request(%d_bytes_%s)", len(f.Body), rsHexHead(f.Body))
 		case ctor == rsCrcAck:
+			n := -1
+			if len(f.Body) >= 12 && binary.LittleEndian.Uint32(f.Body[4:]) == rsCrcVector {
+				n = int(binary.LittleEndian.Uint32(f.Body[8:]))
+			}
+			if n < 1 || len(f.Body) != 12+8*n {
+				s.log.add("X:malformed-msgs_ack(%d_bytes_%s)", len(f.Body), rsHexHead(f.Body))
+				break
+			}
 			var ids []string
-			if len(f.Body) >= 12 {
-				n := int(binary.LittleEndian.Uint32(f.Body[8:]))
-				for i := 0; i < n && 12+8*i+8 <= len(f.Body); i++ {
-					ids = append(ids, strconv.FormatUint(binary.LittleEndian.Uint64(f.Body[12+8*i:]), 10))
-				}
+			for i := 0; i < n; i++ {
+				ids = append(ids, strconv.FormatUint(binary.LittleEndian.Uint64(f.Body[12+8*i:]), 10))
 			}
 			s.acks = append(s.acks, f)
 			s.log.add("S:L:%d:%d:%d:k:%s", f.Mid, f.Seq, int64(f.Salt), strings.Join(ids, "+"))
@@ -217,6 +234,14 @@ func (s *rsServer) latestReq(i int) (rsFrame, bool) {
 		}
 	}
 	return rsFrame{}, false
+}
+
+// rsHexHead: the first bytes of a message, for an X event
+func rsHexHead(b []byte) string {
+	if len(b) > 24 {
+		b = b[:24]
+	}
+	return fmt.Sprintf("%x", b)
 }
 
 func (s *rsServer) newMsgID() uint64 {
@@ -474,7 +499,116 @@ func rsGzipRaw(plain []byte) []byte {
 	return buf.Bytes()
 }
 
+// rsErrFamilies: the parametrised error families of the API documentation (prefix, suffix): the text the server
+// sends carries a number between them; the structured error names the family with X in its place and carries
+// the number as its parameter. PHONE_MIGRATE_ is left out: the client acts on it (reconnects) instead of
+// returning it (C17 covers that).
+var rsErrFamilies = [][2]string{
+	{"FLOOD_WAIT_", ""}, {"SLOWMODE_WAIT_", ""}, {"FILE_MIGRATE_", ""}, {"FILE_PART_", "_MISSING"},
+	{"TAKEOUT_INIT_DELAY_", ""}, {"USER_MIGRATE_", ""}, {"NETWORK_MIGRATE_", ""}, {"STATS_MIGRATE_", ""},
+	{"SESSION_TOO_FRESH_", ""}, {"PASSWORD_TOO_FRESH_", ""}, {"FLOOD_TEST_PHONE_WAIT_", ""}, {"EMAIL_UNCONFIRMED_", ""},
+}
+
+// rsErrVal: what a call answered with rpc_error(code, text) must return, written from the documentation — for
+// a text of a parametrised family with a plain decimal parameter: E:<code>:<family with X>:<parameter>:<the
+// numbers the error's text mentions: the parameter, then the code>; for any other text E:<code>:<text>.
+func rsErrVal(code int, text string) string {
+	for _, f := range rsErrFamilies {
+		if strings.HasPrefix(text, f[0]) && strings.HasSuffix(text, f[1]) && len(text) > len(f[0])+len(f[1]) {
+			mid := text[len(f[0]) : len(text)-len(f[1])]
+			if n, err := strconv.Atoi(mid); err == nil && strconv.Itoa(n) == mid && n >= 0 {
+				return fmt.Sprintf("E:%d:%sX%s:%d:%d+%d", code, f[0], f[1], n, n, code)
+			}
+		}
+	}
+	return fmt.Sprintf("E:%d:%s", code, text)
+}
+
+// rsNumbers: the maximal runs of digits of a text, joined by "+"
+func rsNumbers(s string) string {
+	var out []string
+	for i := 0; i < len(s); {
+		if s[i] < '0' || s[i] > '9' {
+			i++
+			continue
+		}
+		j := i
+		for j < len(s) && s[j] >= '0' && s[j] <= '9' {
+			j++
+		}
+		out = append(out, s[i:j])
+		i = j
+	}
+	return strings.Join(out, "+")
+}
+
+// rsBigBytes: n reproducible bytes for caller tag (no long runs of one value, different for every caller)
+func rsBigBytes(n, tag int) []byte {
+	b := make([]byte, n)
+	x := uint32(tag)*2654435761 + 12345
+	for i := range b {
+		x = x*1664525 + 1013904223
+		b[i] = byte(x >> 24)
+	}
+	return b
+}
+
+// rsShowBytes: how a bytes field appears in a trace — hex as dumpAny prints it when short, length and digest
+// when long (a result of a megabyte would make every trace line megabytes long)
+func rsShowBytes(b []byte) string {
+	if len(b) <= 64 {
+		return "b" + hexD(b)
+	}
+	return fmt.Sprintf("bL%d.%08x", len(b), fnv32(b))
+}
+
+// rsShorten applies rsShowBytes's rule to the dump of a returned value
+func rsShorten(dump string) string {
+	var out strings.Builder
+	for i := 0; i < len(dump); {
+		if dump[i] != 'b' || (i > 0 && dump[i-1] != '(' && dump[i-1] != ';') {
+			out.WriteByte(dump[i])
+			i++
+			continue
+		}
+		j := i + 1
+		for j < len(dump) && (dump[j] >= '0' && dump[j] <= '9' || dump[j] >= 'a' && dump[j] <= 'f') {
+			j++
+		}
+		if j-(i+1) <= 128 || (j-(i+1))%2 != 0 {
+			out.WriteString(dump[i:j])
+		} else {
+			raw := make([]byte, (j-(i+1))/2)
+			for k := range raw {
+				v, _ := strconv.ParseUint(dump[i+1+2*k:i+3+2*k], 16, 8)
+				raw[k] = byte(v)
+			}
+			out.WriteString(rsShowBytes(raw))
+		}
+		i = j
+	}
+	return out.String()
+}
+
 func rsResult(kind string, tag int) (payload []byte, val string) {
+	if strings.HasPrefix(kind, "ob") && len(kind) > 2 {
+		// ob<n>: an object with a bytes field of n bytes (server_DH_params_ok: two int128 and a string) — what a
+		// file part looks like to the transport: one result of about n bytes
+		n := atoi(kind[2:])
+		data := rsBigBytes(n, tag)
+		i128 := func(v int) []byte { b := make([]byte, 16); binary.BigEndian.PutUint64(b[8:], uint64(v)); return b }
+		return rsCat(rsU32(rsCrcDHOk), i128(tag), i128(tag*5+2), rsStr(data)),
+			fmt.Sprintf("od0e8075c(i16:%d;i16:%d;%s)", tag, tag*5+2, rsShowBytes(data))
+	}
+	if strings.HasPrefix(kind, "e") && len(kind) > 1 {
+		// e<code>.<TEXT>: rpc_error with this code and text (the real families: FLOOD_WAIT_<n>, FILE_MIGRATE_<n> …)
+		dot := strings.Index(kind, ".")
+		if dot < 0 {
+			panic("bad caller kind " + kind)
+		}
+		code, text := atoi(kind[1:dot]), kind[dot+1:]
+		return rsCat(rsU32(rsCrcRpcError), rsU32(uint32(int32(code))), rsStr([]byte(text))), rsErrVal(code, text)
+	}
 	if strings.HasPrefix(kind, "vl") && len(kind) > 2 { // vl<n>: Vector<long> of n elements (serialised size 8+8n)
 		n := atoi(kind[2:])
 		b := rsCat(rsU32(rsCrcVector), rsU32(uint32(n)))
@@ -525,13 +659,62 @@ type rsStore struct {
 	mu        sync.Mutex
 	s         *session.Session
 	log       *rsLog
+	// file != nil (plan prefix "SF"): the session lives in the repository's FILE store (session.NewFromFile on a
+	// file left by "an earlier run"); Load and Store go to it, and after every Store the harness reads the file
+	// back with its own reader: W:<salt> is logged for what the file then holds, nothing when the store refused
+	file session.SessionLoader
+	path string
 }
 
 func (st *rsStore) Load() (*session.Session, error) {
+	if st.file != nil {
+		return st.file.Load()
+	}
 	st.mu.Lock()
 	defer st.mu.Unlock()
 	c := *st.s
 	return &c, nil
+}
+
+// rsWriteSessionFile / rsReadSessionFile: the session file format written and read by hand (a JSON object of
+// four strings: key and hash in base64, the salt as base64 of its eight little-endian bytes, the host name)
+func rsWriteSessionFile(path string, x *session.Session) error {
+	b, _ := json.Marshal(map[string]string{
+		"key":      base64.StdEncoding.EncodeToString(x.Key),
+		"hash":     base64.StdEncoding.EncodeToString(x.Hash),
+		"salt":     base64.StdEncoding.EncodeToString(rsU64(uint64(x.Salt))),
+		"hostname": x.Hostname,
+	})
+	if err := os.WriteFile(path, b, 0o600); err != nil {
+		return err
+	}
+	// the file was left by an earlier run of the program, some time ago
+	old := time.Now().Add(-time.Hour)
+	return os.Chtimes(path, old, old)
+}
+
+func rsReadSessionFile(path string) (*session.Session, error) {
+	b, err := os.ReadFile(path)
+	if err != nil {
+		return nil, err
+	}
+	var f map[string]string
+	if err := json.Unmarshal(b, &f); err != nil {
+		return nil, err
+	}
+	x := &session.Session{Hostname: f["hostname"]}
+	if x.Key, err = base64.StdEncoding.DecodeString(f["key"]); err != nil {
+		return nil, err
+	}
+	if x.Hash, err = base64.StdEncoding.DecodeString(f["hash"]); err != nil {
+		return nil, err
+	}
+	salt, err := base64.StdEncoding.DecodeString(f["salt"])
+	if err != nil || len(salt) != 8 {
+		return nil, fmt.Errorf("salt is not eight bytes in base64")
+	}
+	x.Salt = int64(binary.LittleEndian.Uint64(salt))
+	return x, nil
 }
 func (st *rsStore) Store(x *session.Session) error {
 	st.mu.Lock()
@@ -553,6 +736,16 @@ func (st *rsStore) Store(x *session.Session) error {
 		// a slow store (a network file system, a database): the write lands when the call returns
 		time.Sleep(d)
 	}
+	if st.file != nil {
+		if err := st.file.Store(x); err != nil {
+			return err // not an injected fault: nothing was written, nothing is logged as written
+		}
+		got, err := rsReadSessionFile(st.path)
+		if err == nil && bytes.Equal(got.Key, x.Key) && bytes.Equal(got.Hash, x.Hash) && got.Hostname == x.Hostname {
+			st.log.add("W:%d", got.Salt) // what an independent reader finds in the file now
+		}
+		return nil
+	}
 	st.mu.Lock()
 	st.s = &c
 	st.mu.Unlock()
@@ -570,9 +763,14 @@ type rsRun struct {
 	warnN   int
 	warnMu  sync.Mutex
 	started time.Time
+	procs   int    // GOMAXPROCS before a plan step P<n> changed it (0: unchanged)
+	tmpDir  string // holds the session file of a scenario on the file store
 }
 
-func rsStart(kinds []string, salt int64) (*rsRun, error) {
+func rsStart(kinds []string, salt int64) (*rsRun, error) { return rsStartOn(kinds, salt, false) }
+
+// rsStartOn: fileStore — the client's session store is the repository's file store on a file written before
+func rsStartOn(kinds []string, salt int64, fileStore bool) (*rsRun, error) {
 	log := &rsLog{}
 	key := envLCG(256, 99)
 	rsYieldMu.Lock()
@@ -585,12 +783,30 @@ func rsStart(kinds []string, salt int64) (*rsRun, error) {
 	transport.VerifFault = rsFault
 	srv := rsNewServer(key, log)
 	store := &rsStore{log: log, s: &session.Session{Key: key, Hash: envSha1(key)[12:20], Salt: salt, Hostname: srv.ln.Addr().String()}}
+	tmpDir := ""
+	if fileStore {
+		var err error
+		if tmpDir, err = os.MkdirTemp("", "vh-session-"); err != nil {
+			srv.stop()
+			return nil, err
+		}
+		store.path = filepath.Join(tmpDir, "session.json")
+		if err = rsWriteSessionFile(store.path, store.s); err != nil {
+			srv.stop()
+			_ = os.RemoveAll(tmpDir)
+			return nil, err
+		}
+		store.file = session.NewFromFile(store.path)
+	}
 	m, err := mtproto.NewMTProto(mtproto.Config{SessionStorage: store, ServerHost: srv.ln.Addr().String()})
 	if err != nil {
 		srv.stop()
+		if tmpDir != "" {
+			_ = os.RemoveAll(tmpDir)
+		}
 		return nil, err
 	}
-	r := &rsRun{srv: srv, log: log, m: m, store: store, kinds: kinds, started: time.Now()}
+	r := &rsRun{srv: srv, log: log, m: m, store: store, kinds: kinds, started: time.Now(), tmpDir: tmpDir}
 	m.Warnings = make(chan error, 4096)
 	go func() {
 		for w := range m.Warnings {
@@ -655,7 +871,10 @@ func (r *rsRun) call(i int) {
 			res, err = r.m.MakeRequest(req)
 		}
 		if err != nil {
-			if e, ok := rsCause(err).(*mtproto.ErrResponseCode); ok {
+			if e, ok := rsCause(err).(*mtproto.ErrResponseCode); ok && e.AdditionalInfo != nil {
+				// a parametrised error: code, family name, parameter, and the numbers its text mentions
+				r.log.add("D:%d:E:%d:%s:%v:%s", i, e.Code, e.Message, e.AdditionalInfo, rsNumbers(e.Error()))
+			} else if ok {
 				r.log.add("D:%d:E:%d:%s", i, e.Code, e.Message)
 			} else if _, ok := rsCause(err).(*mtproto.BadMsgError); ok {
 				r.log.add("D:%d:badmsg", i)
@@ -664,7 +883,7 @@ func (r *rsRun) call(i int) {
 			}
 			return
 		}
-		r.log.add("D:%d:%s", i, rsDump(res))
+		r.log.add("D:%d:%s", i, rsShorten(rsDump(res)))
 	}()
 }
 
@@ -710,6 +929,13 @@ func (r *rsRun) finish() {
 	_ = r.srv.ln.Close()
 	r.srv.closeConn()
 	time.Sleep(2 * time.Millisecond)
+	if r.procs > 0 {
+		runtime.GOMAXPROCS(r.procs)
+		r.procs = 0
+	}
+	if r.tmpDir != "" {
+		_ = os.RemoveAll(r.tmpDir)
+	}
 }
 
 // ---- scenarios -----------------------------------------------------------------------------------------
@@ -717,6 +943,29 @@ func (r *rsRun) finish() {
 // item builds one server message body from a plan item; returns body, whether it is content-related, and
 // its description for the trace.
 func (r *rsRun) item(it string) (body []byte, content bool, desc string, ok bool) {
+	// a notification item may name its error_code: b/<code>, B<i>/<code>, Bk<j>/<code>, r<i>/<salt>/<code>,
+	// rk<j>/<salt>/<code> — any 32-bit value, in the specification's list or not (the default is the code a
+	// real server would send)
+	code, hasCode := uint32(0), false
+	if strings.HasPrefix(it, "b/") || strings.HasPrefix(it, "B") || strings.HasPrefix(it, "r") {
+		want := 1
+		if strings.HasPrefix(it, "r") {
+			want = 2
+		}
+		if parts := strings.Split(it, "/"); len(parts) == want+1 {
+			v, err := strconv.ParseInt(parts[want], 10, 64)
+			if err != nil || v < -(1<<31) || v >= 1<<32 {
+				return nil, false, "", false
+			}
+			code, hasCode, it = uint32(v), true, strings.Join(parts[:want], "/")
+		}
+	}
+	codeOr := func(def uint32) []byte {
+		if hasCode {
+			return rsU32(code)
+		}
+		return rsU32(def)
+	}
 	switch {
 	case it == "p":
 		return rsCat(rsU32(rsCrcPong), rsU64(1), rsU64(2)), false, "pong", true
@@ -735,7 +984,7 @@ func (r *rsRun) item(it string) (body []byte, content bool, desc string, ok bool
 	case it == "e":
 		return rsCat(rsU32(rsCrcContainer), rsU32(0)), false, "cont()", true
 	case it == "b":
-		return rsCat(rsU32(rsCrcBadMsg), rsU64(4), rsU32(1), rsU32(16)), false, "badmsg(4)", true
+		return rsCat(rsU32(rsCrcBadMsg), rsU64(4), rsU32(1), codeOr(16)), false, "badmsg(4)", true
 	case strings.HasPrefix(it, "T") || strings.HasPrefix(it, "U"): // bad_msg_notification 16 (msg_id too low) / 17 (too high) for caller i's request
 		i := atoi(it[1:])
 		f, found := r.srv.latestReq(i)
@@ -858,7 +1107,7 @@ func (r *rsRun) item(it string) (body []byte, content bool, desc string, ok bool
 		}
 		f := s.acks[j]
 		s.mu.Unlock()
-		return rsCat(rsU32(rsCrcBadMsg), rsU64(f.Mid), rsU32(f.Seq), rsU32(35)), false, fmt.Sprintf("badmsg(%d)", f.Mid), true
+		return rsCat(rsU32(rsCrcBadMsg), rsU64(f.Mid), rsU32(f.Seq), codeOr(35)), false, fmt.Sprintf("badmsg(%d)", f.Mid), true
 	case strings.HasPrefix(it, "rk"): // bad_server_salt naming the j-th msgs_ack the client wrote
 		parts := strings.SplitN(it[2:], "/", 2)
 		salt, _ := strconv.ParseInt(parts[1], 10, 64)
@@ -871,7 +1120,7 @@ func (r *rsRun) item(it string) (body []byte, content bool, desc string, ok bool
 		}
 		f := s.acks[j]
 		s.mu.Unlock()
-		return rsCat(rsU32(rsCrcBadSalt), rsU64(f.Mid), rsU32(f.Seq), rsU32(48), rsU64(uint64(salt))), false,
+		return rsCat(rsU32(rsCrcBadSalt), rsU64(f.Mid), rsU32(f.Seq), codeOr(48), rsU64(uint64(salt))), false,
 			fmt.Sprintf("salt(%d/%d)", f.Mid, salt), true
 	case strings.HasPrefix(it, "B"): // bad_msg_notification naming caller i's latest request
 		i := atoi(it[1:])
@@ -879,7 +1128,7 @@ func (r *rsRun) item(it string) (body []byte, content bool, desc string, ok bool
 		if !found {
 			return nil, false, "", false
 		}
-		return rsCat(rsU32(rsCrcBadMsg), rsU64(f.Mid), rsU32(f.Seq), rsU32(35)), false, fmt.Sprintf("badmsg(%d)", f.Mid), true
+		return rsCat(rsU32(rsCrcBadMsg), rsU64(f.Mid), rsU32(f.Seq), codeOr(35)), false, fmt.Sprintf("badmsg(%d)", f.Mid), true
 	case strings.HasPrefix(it, "q"):
 		id, _ := strconv.ParseUint(it[1:], 10, 64)
 		return rsRpcResult(id, rsCat(rsU32(rsCrcPong), rsU64(1), rsU64(2))), true, fmt.Sprintf("res(%d/o347773c5(l1;l2))", id), true
@@ -903,7 +1152,7 @@ func (r *rsRun) item(it string) (body []byte, content bool, desc string, ok bool
 		if !found {
 			return nil, false, "", false
 		}
-		return rsCat(rsU32(rsCrcBadSalt), rsU64(f.Mid), rsU32(f.Seq), rsU32(48), rsU64(uint64(salt))), false,
+		return rsCat(rsU32(rsCrcBadSalt), rsU64(f.Mid), rsU32(f.Seq), codeOr(48), rsU64(uint64(salt))), false,
 			fmt.Sprintf("salt(%d/%d)", f.Mid, salt), true
 	}
 	return nil, false, "", false
@@ -913,7 +1162,13 @@ func (r *rsRun) item(it string) (body []byte, content bool, desc string, ok bool
 func (r *rsRun) runPlan(plan string) string {
 	for _, st := range strings.Split(plan, ";") {
 		switch {
-		case st == "" || st == "-":
+		case st == "" || st == "-" || st == "SF": // SF (first step): the scenario runs on the file store, see rsScenario
+		case strings.HasPrefix(st, "P"): // P<n>: the Go scheduler gets n processors until the scenario ends (P1: every
+			// goroutine of the client runs on one processor, as on a single-CPU host)
+			old := runtime.GOMAXPROCS(atoi(st[1:]))
+			if r.procs == 0 {
+				r.procs = old
+			}
 		case strings.HasPrefix(st, "g"): // start calls: g0+1+2
 			for _, t := range strings.Split(st[1:], "+") {
 				r.call(atoi(t))
@@ -1030,7 +1285,7 @@ func (r *rsRun) runPlan(plan string) string {
 // rsScenario runs one scenario and returns its trace (events joined by commas) and a status note.
 func rsScenario(kindsCSV, plan string) (trace string, note string) {
 	kinds := strings.Split(kindsCSV, ",")
-	r, err := rsStart(kinds, 1000)
+	r, err := rsStartOn(kinds, 1000, plan == "SF" || strings.HasPrefix(plan, "SF;"))
 	if err != nil {
 		return "", "start-failed:" + strings.ReplaceAll(err.Error(), " ", "_")
 	}
